@@ -15,6 +15,8 @@
 #include "array.h"
 #include "queue.h"
 #include "convert.h"
+#include "layout.h"
+#include "graphic.h"
 #include "mc.hpp"
 
 using namespace mc;
@@ -191,7 +193,7 @@ struct Case {
 	else if (!eq_) c.fail(fn, icls, acls, "wrong-result", std::string(desc) + " on " + c.where() + ": " + k.diff()); } while (0)
 
 // ------------------------------------------------------------------ path counters (vacuity)
-struct Paths { uint64_t nontrivial, beyond_first, tok_comment_cross, tok_newline_cross, tok_empty_in_comment, zbase_unreadable, zbase_newline, trim_cross, quote_cross, read_cross, argv_multi, array_args, memcpy_both, memcpy_partial, append_multi, append_fail_late, append_fail_reloc, qget_two, qget_cross, qget_atwrap, qget_novec_ok, qget_cxx_novec, epush_multi, epush_leading_empty, epush_encoded, with_empty, inline_form, list_form; };
+struct Paths { uint64_t nontrivial, beyond_first, tok_comment_cross, tok_newline_cross, tok_empty_in_comment, zbase_unreadable, zbase_newline, trim_cross, quote_cross, read_cross, argv_multi, array_args, memcpy_both, memcpy_partial, append_multi, append_fail_late, append_fail_reloc, qget_two, qget_cross, qget_atwrap, qget_novec_ok, qget_cxx_novec, epush_multi, epush_leading_empty, epush_encoded, gr_limit_in_cont, gr_item_found, memcpy_nolist, with_empty, inline_form, list_form; };
 static Paths P;
 
 // ------------------------------------------------------------------ search functions on iovec lists
@@ -394,6 +396,7 @@ void mc_jobs(Tier t, std::vector<std::string> &jobs)
 	for (const char *g : {"argv", "search"}) for (size_t n = 0; n <= 3 && n <= b.Lstr; ++n) jobs.push_back(fmt("%s/n=%zu", g, n));
 	jobs.push_back("append");
 	jobs.push_back("append-fail");
+	for (size_t n = 0; n <= (t == Quick ? 5u : 6u); ++n) jobs.push_back(fmt("graphic/n=%zu", n));
 	for (size_t n = 0; n <= (t == Quick ? 5u : 6u); ++n) jobs.push_back(fmt("epush/n=%zu", n));
 	for (size_t m = 1; m <= b.Qmax; ++m) jobs.push_back(fmt("qget/max=%zu", m));
 }
@@ -543,7 +546,8 @@ static void body_memcpy(Run &r, const std::string &job, Ctx &x)
 	}
 	for (const std::vector<uint8_t> &zs : zero_places(sp.size(), b.Ecpy)) for (const std::vector<uint8_t> &zd : zero_places(dp.size(), b.Ecpy)) {
 		with_zeros(sp, zs, sl); with_zeros(dp, zd, dl);
-		if (sl.empty() || dl.empty()) { r.count("memcpy_zero_fragment_list(documented early return, not compared)"); continue; }
+		// the empty byte string given as NO fragment at all (the composition of 0) is compared like any other cut
+		if (sl.empty() || dl.empty()) ++P.memcpy_nolist;
 		src.build(s, sl); dst.build(0, dl);
 		if (r.replaying) r.note("source %s, target %zu bytes in %zu fragments", show_cut(s, sl).c_str(), m, dl.size());
 		c.form = "iovec list"; k.start_cmp();
@@ -787,6 +791,66 @@ static void body_epush(Run &r, const std::string &job, Ctx &x)
 	r.transitions += c.evals;
 }
 
+// ---- graphic::target() / graphic::get_item(): consumers that find ':' in a length limited message by walking
+// base/cont themselves.  Strings over {a b : 1}, every limit 0..n+1, all cuts, both forms; graphic with one layout "ab".
+static void ops_graphic(Case &c, Sink &k, const mpt::graphic &g, mpt::layout *lay, const mpt::message &m0, const struct iovec *v, size_t nv, bool inlineform)
+{
+	size_t n = c.n;
+	c.r.hint("graphic::target");
+	for (size_t len = 0; len <= n + 1; ++len) {
+		if (!c.isref && len < n) { size_t first = inlineform && nv ? v[0].iov_len : 0; if (len > first && nv > 1) ++P.gr_limit_in_cont; }
+		{
+			mpt::message m = m0; mpt::laydest d(0, 0, 0, 0);
+			int ret = g.target(d, m, len);
+			k.begin(); k.num(ret); k.num(d.lay); k.num(d.grf); k.num(d.wld); k.num(d.dim); put_rest(k, n, m);
+			CLOSE("graphic::target", "", len == 0 ? "len=0" : (len < n ? "limit<total" : (len == n ? "limit=total" : "limit>total")), fmt("graphic::target(len=%zu)", len));
+		}
+		{
+			c.r.hint("graphic::get_item");
+			mpt::message m = m0;
+			mpt::convertable *it = g.get_item(m, len);
+			k.begin(); k.num(!it ? 0 : (it == static_cast<mpt::convertable *>(lay) ? 1 : 2)); put_rest(k, n, m);
+			if (!c.isref && it && nv > 1) ++P.gr_item_found;
+			CLOSE("graphic::get_item", "", len == 0 ? "len=0" : (len < n ? "limit<total" : (len == n ? "limit=total" : "limit>total")), fmt("graphic::get_item(len=%zu)", len));
+			c.r.hint("graphic::target");
+		}
+	}
+}
+static void body_graphic(Run &r, const std::string &job, Ctx &x)
+{
+	static const uint8_t GA[4] = {'a', 'b', ':', '1'};
+	Bounds b = bounds(r.tier);
+	size_t n = jobnum(job, "n=");
+	uint8_t s[16];
+	{ size_t m = 1; for (size_t i = 0; i < n; ++i) m *= 4; size_t v = x.choose(m); for (size_t i = n; i-- > 0;) { s[i] = GA[v % 4]; v /= 4; } }
+	static std::vector<size_t> parts, lens;
+	composition(n, x.choose(ncomp(n)), parts);
+	static mpt::graphic *g = 0; static mpt::layout *lay = 0;
+	if (!g) { g = new mpt::graphic; lay = new mpt::layout; lay->set_alias("ab"); g->add_layout(lay); }
+	static uint8_t refs[16]; static size_t refn = ~(size_t) 0; static Sink k; static Frags ref, f;
+	Case c(r); c.s = s; c.n = n; c.lens = &lens;
+	asan_error();
+	if (refn != n || memcmp(refs, s, n)) {
+		lens.assign(1, n); ref.build(s, lens);
+		k.start_ref(); c.isref = true; ops_graphic(c, k, *g, lay, ref.msg(1), ref.vec, ref.nv, true); c.isref = false;
+		refn = n; memcpy(refs, s, n);
+	}
+	int E = n > 5 ? 1 : b.E;
+	for (const std::vector<uint8_t> &z : zero_places(parts.size(), E)) {
+		with_zeros(parts, z, lens);
+		f.build(s, lens);
+		if (r.replaying) r.note("input %s cut as %s", show(s, n).c_str(), show_cut(s, lens).c_str());
+		for (int form = 0; form < 2; ++form) {
+			if (form && lens.empty()) continue;
+			c.form = form ? "message, first part inline" : "message, pure iovec list"; k.start_cmp();
+			ops_graphic(c, k, *g, lay, f.msg(form), f.vec, f.nv, form != 0);
+			count_case(r, lens, 1); ++(form ? P.inline_form : P.list_form);
+		}
+		if (lens.size() == 2 && n == 4 && lens[0] == 1 && s[2] == ':') r.sample("graphic: target/get_item(limit 0..n+1) on " + show_cut(s, lens) + " (layout alias \"ab\" registered) vs " + show(s, n));
+	}
+	r.transitions += c.evals;
+}
+
 // mpt_message_get: every ring state (max,off,len) x (offset,take); reference = same content stored unwrapped (off=0)
 static void body_qget(Run &r, const std::string &job, Ctx &x)
 {
@@ -890,6 +954,7 @@ static void body(Run &r, const std::string &job, Ctx &x)
 	else if (job.compare(0, 7, "memcpy/") == 0) body_memcpy(r, job, x);
 	else if (job == "append") body_append(r, job, x);
 	else if (job == "append-fail") body_append_fail(r, job, x);
+	else if (job.compare(0, 8, "graphic/") == 0) body_graphic(r, job, x);
 	else if (job.compare(0, 6, "epush/") == 0) body_epush(r, job, x);
 	else if (job.compare(0, 5, "qget/") == 0) body_qget(r, job, x);
 }
@@ -900,7 +965,7 @@ void mc_explore(Run &r, const std::string &job)
 	const char *req[] = {"nontrivial", "cases_with_zero_length_fragment", "form_inline_first_part", "form_pure_iovec_list", "search_hit_beyond_first_fragment",
 	                     "memtok_comment_started_in_earlier_fragment", "memtok_comment_ended_by_newline_in_later_fragment", "memtok_zero_length_fragment_inside_comment", "empty_fragment_base_unreadable", "empty_fragment_base_foreign_newline", "argv_space_at_fragment_end", "argv_quoted_input_fragmented", "argv_iterated_more_than_one_argument",
 	                     "array_message_more_than_one_argument", "read_crossing_fragment_boundary", "memcpy_source_and_target_fragmented", "memcpy_open_length_partial",
-	                     "append_multi_fragment", "append_fails_after_leading_fragments_went_in", "encode_array_push_message_multi_fragment", "encode_array_push_message_empty_first_part", "encode_array_push_message_with_encoder", "qget_two_part_message", "qget_range_crossing_wrap", "qget_offset_exactly_at_wrap_point", "qget_wrapped_one_piece_without_vec", "decode_queue_current_message_wrapped_one_piece_without_cont"};
+	                     "append_multi_fragment", "append_fails_after_leading_fragments_went_in", "graphic_limit_ends_inside_continuation", "graphic_get_item_found_fragmented", "memcpy_zero_fragment_list_compared", "encode_array_push_message_multi_fragment", "encode_array_push_message_empty_first_part", "encode_array_push_message_with_encoder", "qget_two_part_message", "qget_range_crossing_wrap", "qget_offset_exactly_at_wrap_point", "qget_wrapped_one_piece_without_vec", "decode_queue_current_message_wrapped_one_piece_without_cont"};
 	for (const char *q : req) r.require(q);
 	dfs(r, [&](Ctx &x) { body(r, job, x); });
 	r.count("nontrivial", P.nontrivial); r.count("cases_with_zero_length_fragment", P.with_empty);
@@ -912,7 +977,8 @@ void mc_explore(Run &r, const std::string &job)
 	r.count("read_crossing_fragment_boundary", P.read_cross);
 	r.count("memcpy_source_and_target_fragmented", P.memcpy_both); r.count("memcpy_open_length_partial", P.memcpy_partial);
 	r.count("append_multi_fragment", P.append_multi); r.count("append_fails_after_leading_fragments_went_in", P.append_fail_late); r.count("append_fails_after_buffer_was_relocated", P.append_fail_reloc);
- r.count("encode_array_push_message_multi_fragment", P.epush_multi); r.count("encode_array_push_message_empty_first_part", P.epush_leading_empty); r.count("encode_array_push_message_with_encoder", P.epush_encoded);
+ r.count("graphic_limit_ends_inside_continuation", P.gr_limit_in_cont); r.count("graphic_get_item_found_fragmented", P.gr_item_found); r.count("memcpy_zero_fragment_list_compared", P.memcpy_nolist);
+	r.count("encode_array_push_message_multi_fragment", P.epush_multi); r.count("encode_array_push_message_empty_first_part", P.epush_leading_empty); r.count("encode_array_push_message_with_encoder", P.epush_encoded);
 	r.count("qget_two_part_message", P.qget_two); r.count("qget_range_crossing_wrap", P.qget_cross); r.count("qget_offset_exactly_at_wrap_point", P.qget_atwrap);
 	r.count("qget_wrapped_one_piece_without_vec", P.qget_novec_ok); r.count("decode_queue_current_message_wrapped_one_piece_without_cont", P.qget_cxx_novec);
 }
